@@ -296,7 +296,7 @@ def parseStateDef (cfg : J) (sid : String) (path : Path) (isRoot : Bool) : PM St
       | .obj kvs =>
         let cands := kvs.filter (fun kv => !(isHistoryCfg kv.2))
         pure (match cands with | [kv] => some kv.1 | _ => initialRaw)
-      | _ => throw "RAW:AttributeError"     -- `.items()` on a non-dict before shape validation
+      | _ => throw "InvalidConfigError: invalid 'states' value (not an object)"     -- `.items()` on a non-dict before shape validation
   -- tags
   let tags ← match cfg.get? "tags" with
     | none => pure []
@@ -383,10 +383,16 @@ def parseState (cfg : J) (key : String) (sid : String) (path : Path) (isRoot : B
 termination_by sizeOf cfg
 decreasing_by exact stateKidsJ_sizeOf_lt cfg kc _h
 
+/-- Python `int(s)` on a string, approximately: surrounding ASCII blanks and a leading `-` are accepted
+(not modelled: a leading `+`, `_` digit separators, non-ASCII digits) -/
+def pyIntOfStr (s : String) : Option Int := (String.ofList ((s.toList.dropWhile (· = ' ')).reverse.dropWhile (· = ' ')).reverse).toInt?
+
+/-- `MachineNode.__init__` + the checks of `factory.create_machine` (called with an explicit `logic`).
+Errors tagged `RAW:` model raw Python exceptions the code really raises (not library errors). -/
 def parseMachine (cfg : J) : Except PErr Machine := do
   match cfg with
   | .obj _ => pure ()
-  | _ => throw "InvalidConfigError: machine configuration must be a dictionary"
+  | _ => throw "InvalidConfigError: machine configuration must be a dictionary"   -- factory.py: `config.get("id")` on a non-dict
   let mid ← match cfg.get? "id" with
     | some (.str s) => if s = "" then throw "InvalidConfigError: machine configuration must have a non-empty 'id' string" else pure s
     | _ => throw "InvalidConfigError: machine configuration must have a non-empty 'id' string"
@@ -397,7 +403,11 @@ def parseMachine (cfg : J) : Except PErr Machine := do
   let maxIt ← match cfg.get? "maxIterations" with
     | none => pure Tables.defaultMaxIterations
     | some (.num n) => pure n.toNat
-    | some _ => throw "RAW:ValueError"
+    | some (.bool b) => pure (if b then 1 else 0)                 -- `int(True)` = 1
+    | some (.str s) => (match pyIntOfStr s with
+        | some n => pure n.toNat
+        | none => throw "InvalidConfigError: invalid 'maxIterations' (not an integer literal)")
+    | some _ => throw "InvalidConfigError: invalid 'maxIterations' (not a number)"   -- None, list, dict
   let (root, st) ← (parseState cfg mid mid [] true).run {}
   let ctx0 : List (String × Int) := match cfg.get? "context" with
     | some (.obj kvs) => kvs.filterMap (fun kv => match kv.2 with | .num n => some (kv.1, n) | _ => none)
